@@ -53,12 +53,13 @@ if democmd:
     f1, o1 = run_demo(3)
     res["demo_fails_with_change"] = (f1 == 3)
     res["demo_output_with_change"] = o1
-    sh("git stash")
+    open(os.path.join(wt, "_seed", ".adopt.diff"), "w").write(diff)
+    sh("git apply -R _seed/.adopt.diff")   # not git stash: the stash is shared between worktrees
     build(backend)
     f0, o0 = run_demo(3)
     res["demo_passes_without_change"] = (f0 == 0)
     res["demo_output_without_change"] = o0
-    sh("git stash pop")
+    sh("git apply _seed/.adopt.diff")
 shutil.rmtree(b, ignore_errors=True)
 ok = all(res.get(k) for k in ("confined_to_rkcommon", "build_with_change", "tests_pass_with_change", "demo_fails_with_change", "demo_passes_without_change"))
 res["confirmed"] = ok
